@@ -101,6 +101,8 @@ pub struct Scanned {
     /// (file, what, line)
     pub nondet: Vec<(String, String, usize)>,
     pub unparsed: Vec<String>,
+    /// storage layout facts for Layout.v (C08), see layout.rs
+    pub layout: crate::layout::Layout,
 }
 
 fn is_cfg_test(attrs: &[syn::Attribute]) -> bool {
@@ -255,7 +257,7 @@ fn scan_items(items: &[syn::Item], file: &str, sc: &mut Scanned) {
 }
 
 pub fn scan_sources(src: &Path, files: &[PathBuf]) -> Scanned {
-    let mut sc = Scanned { consts: vec![], event_types: vec![], attribute_keys: vec![], nondet: vec![], unparsed: vec![] };
+    let mut sc = Scanned { consts: vec![], event_types: vec![], attribute_keys: vec![], nondet: vec![], unparsed: vec![], layout: Default::default() };
     for rel in files {
         let name = rel.to_string_lossy().to_string();
         let txt = match std::fs::read_to_string(src.join(rel)) {
@@ -273,6 +275,7 @@ pub fn scan_sources(src: &Path, files: &[PathBuf]) -> Scanned {
             }
         };
         scan_items(&file.items, &name, &mut sc);
+        crate::layout::scan_file(&name, &file, &mut sc.layout);
         let mut ev = vec![];
         let mut at = vec![];
         Lits { file: &name, events: &mut ev, attrs: &mut at }.visit_file(&file);
